@@ -150,7 +150,7 @@ var MutationKinds = []string{
 	"binder-to-scope", "case-payload-to-scope", "case-payload-to-scope", "binder-to-alias", "alias-to-live", "cut-reuse-self-as-name", "drop-statement", "dup-statement", "rename-binder", "rename-use", "wait-to-drop", "insert-drop", "insert-split",
 	"extra-provider", "swap-send-args", "wrong-label", "drop-branch", "dup-branch", "extra-branch", "arity-minus", "arity-plus",
 	"wrong-callee", "self-misplaced", "ann-inequivalent", "ann-mode", "param-mode", "ret-mode", "prc-mode", "ann-equivalent",
-	"swap-statements", "cut-body-continuation", "remove-ann", "polarity", "self-arg", "shift-words", "typedef-change", "toplevel-cycle",
+	"swap-statements", "cut-body-continuation", "remove-ann", "polarity", "self-arg", "shift-words", "typedef-change", "toplevel-cycle", "merge-binders", "merge-binders",
 }
 
 // Mutate applies one single-site edit to a clone of p. ok=false when the chosen operator has
@@ -174,6 +174,44 @@ func (d D) Mutate(p *ast.Program, kind string) (*ast.Program, string, bool) {
 		return k == ast.TWait || k == ast.TDrop || k == ast.TPrint
 	}
 	switch kind {
+	case "merge-binders": // <x, y> <- recv/split z becomes <x, x>, and the statement that used y up goes
+		type site struct {
+			r    termRef
+			stmt *ast.Term // the wait/drop in the continuation chain that uses one of the binders
+			prev *ast.Term
+		}
+		var cs []site
+		for _, r := range terms {
+			if (r.T.Kind != ast.TRecv && r.T.Kind != ast.TSplit) || r.T.X.Self || r.T.Y.Self || r.T.X.S == r.T.Y.S {
+				continue
+			}
+			prev := r.T
+			for k := r.T.K; k != nil; prev, k = k, k.K {
+				if (k.Kind == ast.TWait || k.Kind == ast.TDrop) && !k.X.Self && (k.X.S == r.T.X.S || k.X.S == r.T.Y.S) {
+					cs = append(cs, site{r, k, prev})
+					break
+				}
+				if k.Kind != ast.TWait && k.Kind != ast.TDrop && k.Kind != ast.TPrint {
+					break
+				}
+			}
+		}
+		if len(cs) == 0 {
+			return nil, "", false
+		}
+		c := cs[d.Pick(len(cs), "site")]
+		gone, keep := c.stmt.X.S, c.r.T.X.S
+		if gone == keep {
+			keep = c.r.T.Y.S
+		}
+		c.prev.K = c.stmt.K // remove the statement
+		if c.r.T.X.S == gone {
+			c.r.T.X.S = keep
+		} else {
+			c.r.T.Y.S = keep
+		}
+		_ = gone
+		return q, fmt.Sprintf("both binders of `%s` in %s are now called %s, and the statement that used %s up is gone", ast.TermKindName[c.r.T.Kind], declName(c.r.Decl), keep, gone), true
 	case "toplevel-cycle": // a process that nobody uses is waited for by a process it (indirectly) uses
 		user := map[string]*ast.Decl{} // top-level name -> the process using it
 		var prcs []*ast.Decl
